@@ -87,9 +87,11 @@ class C03(Spec):
         from contracts import tasks_resolver
         return (tasks_keywords.keyword_tasks(root, _tmo(tier)) +
                 tasks_core.core_tasks(root, 2 * _tmo(tier), which=("iter_errors", "is_valid", "descend", "validate", "is_type")) +
-                tasks_resolver.resolver_tasks(root, 2 * _tmo(tier), which=("resolve_fragment",)))
+                tasks_resolver.resolver_tasks(root, 2 * _tmo(tier), which=("resolve_fragment", "resolve_from_url", "resolve", "ref_keyword")))
 
     def select(self, ob, r):
+        if r["task"].startswith("validators:RefResolver.") and "/F/error" in ob["name"]:
+            return True       # "only RefResolutionError escapes"
         return ob["kind"] in ("S", "P")
 
     def failure_kinds(self):
@@ -152,10 +154,14 @@ class C10(Spec):
     explanation = "Tables (AST) contain exactly each draft's vocabulary; iter_errors skips keys without a table entry and looks at nothing but $ref when it is present (dispatch proof); keyword functions read only declared sibling keys (read frames); id_of reads `id` in drafts 3/4 and `$id` in drafts 6/7."
 
     def tasks(self, root, tier):
+        from contracts import tasks_resolver
         return (tasks_core.core_tasks(root, 2 * _tmo(tier), which=("iter_errors",)) +
-                [tasks_core.IdOfTask(root, d) for d in drafts.DRAFTS])
+                [tasks_core.IdOfTask(root, d) for d in drafts.DRAFTS] +
+                tasks_resolver.resolver_tasks(root, 2 * _tmo(tier), which=("resolve_from_url",)))
 
     def select(self, ob, r):
+        if r["task"].startswith("validators:RefResolver."):
+            return True      # a reference target is found by document URL in the store or retrieved: no search for embedded `id` / `$id`
         return ob["kind"] in ("F", "R", "S") and (r["task"].startswith("id_of") or ob["kind"] == "F")
 
     def table_obligations(self, repo, tabs):
@@ -364,14 +370,18 @@ class C07(Spec):
         "frame analysis is syntactic and conservative (pyvc/frames.py)",
     ]
     assumptions = ["re-entering a validator while one of its own iterators is suspended is not claimed (property text)",
-                   "coherence of the resolver's caches with its store across histories (DESIGN.md C07 (c)) is covered by the bounded history stand-in only until the resolver functions are under contract (C15)"]
+                   "coherence of the resolver's caches with its store across histories: from the contracts of resolve_remote / resolve_from_url / resolve (C15) by the paper invariant argument (the store only grows, a failed retrieval stores nothing and is not remembered by lru_cache)"]
     explanation = "Exit-path obligations: on every exit of iter_errors, of the $ref keyword function and of the resolver's context managers - exhaustion, an exception from any callee, an exception from urljoin before the push, GeneratorExit at the yield - pushes equal pops and no prefix pops more than it pushed. Write frames: validation code writes only to errors/lists it created, the resolver's scope stack and (resolve_remote) store. Generator discipline keeps finalisation prompt."
 
     def tasks(self, root, tier):
+        from contracts import tasks_resolver
         return (tasks_core.core_tasks(root, _tmo(tier), which=("iter_errors_x", "ref_x", "is_valid", "validate")) +
-                [tasks_core.CoreTask(root, 7, "scope_cm_x", _tmo(tier))])
+                [tasks_core.CoreTask(root, 7, "scope_cm_x", _tmo(tier))] +
+                tasks_resolver.resolver_tasks(root, 2 * _tmo(tier), which=("resolve_remote", "resolve_from_url", "resolve", "scopes")))
 
     def select(self, ob, r):
+        if r["task"].startswith("validators:RefResolver."):
+            return True
         return ob["kind"] in ("X", "P", "S")
 
     def failure_kinds(self):
@@ -833,6 +843,82 @@ class C18(Spec):
                  "cases": r["tried"], "failures": r["failures"], "replay_kind": "hist", "label": "bounded (not counted as proof)"}]
 
 
+RESOLVER_ALL = ("resolve_fragment", "resolve_remote", "resolve_from_url", "resolve", "scopes", "ref_keyword")
+
+
+def resolver_table_obligations(repo):
+    from contracts import tasks_resolver
+    return tasks_resolver.init_obligations(repo)
+
+
+class C02(Spec):
+    pid = "C02"
+    level = "proof"
+    design_ref = "DESIGN.md section 8 C02"
+    trusted = [
+        "urllib.parse.urljoin IS RFC 3986 section 5.2 reference resolution, urldefrag splits off the fragment, URIDict.normalize (urlsplit().geturl()) identifies `u` and `u#`: uninterpreted functions shared by code and spec (assumed contracts of the dependency); an absolute URL joins to itself (assumed)",
+        "precondition: every designated value is itself a schema of the draft (a reference to a non-schema such as `#/examples` is outside the claim: DESIGN.md F13)",
+        "correctness is partial: V is defined by substitution only where the evaluation terminates; cyclic references that consume nothing are outside the model (DESIGN.md F11)",
+        "targets are looked up in the store by document URL; schemas identified only by an embedded id are excluded by the property text (upstream issue 371)",
+        "the caches satisfy the cache contract (return what the wrapped function returns): true of functools.lru_cache and of any pass-through",
+    ]
+    assumptions = ["retrieval is a deterministic function of the URL (the environment does not change a document between two fetches)"]
+    explanation = "The chain from the property to the code: iter_errors is proved to look at nothing but `$ref` when present and to yield exactly the errors of the `$ref` keyword function (dispatch proof); that function is proved to yield exactly descend(instance, designated(url)) evaluated with the scope set to url = urljoin(current scope, ref), adding nothing to any path, and to restore the scope; resolve is proved to return (url, designated(url)) through any cache; resolve_from_url to take the document from the store by normalised defragmented URL or retrieve it once, then evaluate the fragment; resolve_fragment against RFC 6901 (C14); push_scope / pop_scope / resolution_scope over the stack; the constructor's store seeding and URIDict's key normalisation from the AST."
+
+    def tasks(self, root, tier):
+        from contracts import tasks_resolver
+        return (tasks_resolver.resolver_tasks(root, 2 * _tmo(tier), which=RESOLVER_ALL) +
+                tasks_core.core_tasks(root, 2 * _tmo(tier), which=("iter_errors",)))
+
+    def select(self, ob, r):
+        if r["task"].startswith("validators:RefResolver."):
+            return True
+        return "/F/structure" in ob["name"] or "/F/verdict" in ob["name"] or ob["kind"] == "X"
+
+    def failure_kinds(self):
+        return ("X", "F")
+
+    def table_obligations(self, repo, tabs):
+        return resolver_table_obligations(repo)
+
+    def standins(self, root, tier):
+        from pyvc import driver
+        r = driver.rt_call("pyvc.rt_ref", {"cmd": "search", "root": root}, root, timeout=3000)
+        return [{"name": "ref-vs-inlined", "scope": "20 definition names (empty, numeric-looking, with / ~ % # ? quotes, non-ASCII, ~01, a%2Fb) x 4 target schemas x 7 reference positions (incl. keywords next to $ref) x 5 instances x 4 drafts; 8 base-URI arrangements (root id, nested id on the path, relative / absolute references, store documents, recursion through # and through a definition)",
+                 "cases": r["tried"], "failures": r["failures"], "replay_kind": "ref", "label": "bounded (not counted as proof)"}]
+
+
+class C15(Spec):
+    pid = "C15"
+    level = "proof"
+    design_ref = "DESIGN.md section 8 C15"
+    trusted = [
+        "functools.lru_cache(n)(f): returns f(x), possibly remembered from an earlier normal return; a call that raises stores nothing; entries may be evicted at any time (assumed contract); resolve is verified against any cache satisfying this contract, which pass-through and evicting caches also do",
+        "history quantifier by invariant (paper): the store only grows and existing documents are never replaced by validation (write frames, C07), so a remembered result equals what a new call would return when retrieval is deterministic; with cache_remote every successfully retrieved URL is in the store afterwards (resolve_remote's contract), hence is never retrieved again",
+        "URIDict.normalize identifies `u` and `u#` (assumed property of urllib.parse), so a metaschema id with or without the trailing '#' hits the pre-seeded entry",
+    ]
+    assumptions = ["retrieval is a deterministic function of the URL; handlers are arbitrary callables that return a document or raise"]
+    explanation = "resolve_remote is proved to perform exactly one retrieval chosen by scheme (handler, requests for http(s) when importable, urlopen), to add uri -> document to the store exactly when cache_remote, and to store nothing when the retrieval fails; resolve_from_url to retrieve nothing when the normalised defragmented URL is in the store and exactly once otherwise, to turn every retrieval failure into RefResolutionError, and to evaluate the fragment in the stored / retrieved document; resolve to be transparent in its caches; the constructor to seed the store with every registered metaschema, then the caller's documents (normalising their keys), then the referrer."
+
+    def tasks(self, root, tier):
+        from contracts import tasks_resolver
+        return tasks_resolver.resolver_tasks(root, 2 * _tmo(tier), which=("resolve_remote", "resolve_from_url", "resolve"))
+
+    def select(self, ob, r):
+        return True
+
+    def failure_kinds(self):
+        return ("H",)
+
+    def table_obligations(self, repo, tabs):
+        w, _ = write_frame_obligations(repo, tabs, ["validators:RefResolver.resolve", "validators:RefResolver.resolve_from_url", "validators:RefResolver.resolve_remote",
+                                                    "validators:RefResolver.resolve_fragment"], VALIDATION_WRITES, "retrieval")
+        return resolver_table_obligations(repo) + [r for r in w if not r["name"].startswith("frames/")] + ownership_obligations(repo)
+
+    def standins(self, root, tier):
+        return [history_standin(root, tier, configs=[[True, "default"], [False, "default"], [True, "passthrough"]])]
+
+
 class C04(Spec):
     pid = "C04"
     level = "proof"
@@ -901,4 +987,4 @@ class C08(Spec):
         return out
 
 
-SPECS = {"C01": C01, "C03": C03, "C04": C04, "C05": C05, "C11": C11, "C12": C12, "C13": C13, "C14": C14, "C16": C16, "C17": C17, "C19": C19, "C20": C20, "C07": C07, "C18": C18, "C06": C06, "C08": C08, "C09": C09, "C10": C10}
+SPECS = {"C01": C01, "C02": C02, "C15": C15, "C03": C03, "C04": C04, "C05": C05, "C11": C11, "C12": C12, "C13": C13, "C14": C14, "C16": C16, "C17": C17, "C19": C19, "C20": C20, "C07": C07, "C18": C18, "C06": C06, "C08": C08, "C09": C09, "C10": C10}
